@@ -37,7 +37,7 @@ TIERS = {
     "quick": {"shards": 8, "budget_s": 45},
     "thorough": {"shards": 16, "budget_s": 480},
 }
-MIN_EVENTS = {"quick": 150, "thorough": 1500}
+MIN_EVENTS = {"quick": 1000, "thorough": 1500}
 DECIDING = {"systemize", "steady_jacob", "stacked_jacob"}
 RULE = (
     "random models (expression trees of depth<=4 over + - * / ^ unary minus, numbers, parameters, variables at lags/leads, "
@@ -107,6 +107,14 @@ def _fd_matrix(func, x0, rel=1e-3):
         rr = (16 * r2 - r1) / 15
         J[:, j] = rr
         Err[:, j] = np.abs(rr - r2) + 1e-12 * (np.abs(rr) + np.abs(f0) / h)
+    # a residual that is undefined on one side of x0 in some direction sits on the boundary of its domain (0**0.3,
+    # log at 0, ...): the property quantifies over interior points only, so the whole row is left undecided
+    edge = ~np.all(np.isfinite(J), axis=1)
+    if edge.any():
+        J[edge, :] = np.nan
+        c = rt.ctx()
+        if c is not None:
+            c.inconc("fd:row-on-domain-boundary", int(edge.sum()))
     return J, Err
 
 
@@ -532,10 +540,20 @@ def _wrap_stacked(ev, has_terminator, humans):
             if not np.all(np.isfinite(f0)) or np.max(np.abs(f0)) > 1e8:
                 c.inconc("stacked_jacob:point-outside-domain")
                 return
-            Jfd, Err = _fd_matrix(f, g0)
-            J = jac.toarray() if hasattr(jac, "toarray") else np.asarray(jac)
             text = " ".join(humans)
             feats = tuple(f_ for f_ in ("log", "exp", "sqrt", "logistic", "maximum", "minimum", "abs", "^", "/") if (f_ + "(" in text or (f_ in "^/" and f_ in text)))
+            if set(feats) & {"^", "/", "log", "sqrt"}:
+                # x**a, 1/x, log and sqrt have the edge of their domain at 0: a point (including the terminal condition the
+                # terminator writes) with an endogenous value exactly there is not an interior point and is left undecided
+                a0, a1 = base.copy(), base.copy()
+                with np.errstate(all="ignore"):
+                    orig_f(g0, a0); orig_f(g0 + 0.12345, a1)
+                rows = np.any(a0 != a1, axis=1)
+                if np.any(a0[rows, :] == 0):
+                    c.inconc("stacked_jacob:point-on-domain-boundary")
+                    return
+            Jfd, Err = _fd_matrix(f, g0)
+            J = jac.toarray() if hasattr(jac, "toarray") else np.asarray(jac)
             nper = len(f0) // max(1, len(humans))
             key = ("stacked_jacob", feats, has_terminator, min(nper, 8), min(len(humans), 5))
             c.event("stacked_jacob", "terminator" if has_terminator else "no-terminator", key=key, nontrivial=bool(feats) and nper >= 2)
@@ -822,14 +840,14 @@ def shard(c):
         for i, case in enumerate(cases):
             if i % c.nshards == c.shard:
                 run_case(c, case)
-    for i in range(c.scale(12, 400)):
+    for i in range(c.scale(40, 400)):
         if c.out_of_time():
             break
         try:
             run_terminator_case(c, {"kind": "terminator", "seed": int(rng.integers(0, 2 ** 31))})
         except Exception as exc:
             c.inconc(f"harness:case-error:{type(exc).__name__}")
-    n = c.scale(120, 4000)
+    n = c.scale(450, 4000)
     for i in range(n):
         if c.out_of_time():
             break
